@@ -660,6 +660,10 @@ def run(an: Analysis, rep):
         rep.run(r116, an, rep, V)
     rep.run(r115, an, rep)
     rep.run(r117, an, rep)
+    from .common import SharedRules
+    from . import c04
+    rep.run(c04.r041, an, SharedRules(rep, "R11.8", "every argument count is stored in the data: the decoded Args determine co_argcount / co_posonlyargcount / co_kwonlyargcount "
+                                                  "(shared with C04's R04.1) - otherwise to_code() writes different counts"))
     rep.stats.update(an.stats(interps))
     rep.assumptions += [
         "enum._decompose(flag, value) returns (members, not_covered) on 3.7-3.10 (parsed from each stdlib enum.py, see reference/)",
